@@ -62,7 +62,7 @@ def target_name(v):
     if isinstance(v, gfapy.OrientedLine):
         l = v.line
         n = line_key(l) if is_line(l) else "str:" + str(l)
-        return n + v.orient
+        return (n, v.orient)
     if is_line(v):
         return line_key(v)
     return "str:" + str(v)
@@ -76,7 +76,7 @@ def _coll(x, name):
     out = []
     for e in v:
         if isinstance(e, gfapy.OrientedLine):
-            out.append(target_name(e))
+            out.append(repr(target_name(e)))
         elif is_line(e):
             out.append(line_key(e))
         else:
